@@ -41,6 +41,9 @@ weight = z3.Function('weight', UStr, Node, z3.RealSort())
 total = z3.Function('total', UStr, z3.RealSort())
 log = z3.Function('log', z3.RealSort(), z3.RealSort())
 pos_of = z3.Function('pos', Node, UStr)
+# the fixed total order in which lowest_common_hypernyms() lists its result: sorted by (rowid, ILI) - contract of
+# wn.taxonomy._shortest_hyp_paths / _synset_sort_key (C13, C16); injective on the synsets of one Wordnet
+rank = z3.Function('sort_rank', Node, z3.IntSort())
 
 
 def collect_terms(formulas):
@@ -110,6 +113,9 @@ def graph_axioms(formulas=()):
                                                                    dist(a, c, sr) + dist(b, c, sr) >= dist(a, b, sr)))]
     for a in nodes:
         out.append(depth(a) >= 0)
+        for b in nodes:
+            if not a.eq(b):
+                out.append(z3.Implies(a != b, rank(a) != rank(b)))
         for p in poss:
             out.append(z3.And(weight(p, a) > 0, weight(p, a) <= total(p)))
     # A-FLOAT: log strictly increasing on positive reals
@@ -218,7 +224,12 @@ class LCSList(SeqBase):
         if idx != 0:
             raise Unsupported('index other than 0 into the lowest common hypernyms')
         it.safety_check(self.nonempty(), IndexError, node, 'lowest common hypernyms is empty')
-        return self.pick(it, 'first')
+        s = self.pick(it, 'first')
+        # the list is sorted: its first element is the member that comes first in the fixed order
+        m = z3.Const(f'lcs_any{LCSList._k}', Node)
+        it.ctx.assume(z3.ForAll([m], z3.Implies(in_lcs(self.a, self.b, self.sr, m), rank(s.n) <= rank(m)),
+                                patterns=[in_lcs(self.a, self.b, self.sr, m)]))
+        return s
 
     def vc_minmax(self, it, is_max, key, default, node):
         s = self.pick(it, 'argmax')
@@ -392,11 +403,10 @@ def deductive_obligations() -> list:
         obs.append(Obligation(f'{name}:bounds:{pid}', assumptions=pc,
                               goal=z3.And(v > 0, v <= 1, z3.Implies(a.n == b.n, v == 1)),
                               detail='in (0,1], 1 for identical synsets', functions=(name,), **cm))
-    # symmetry of wup: refuted unless the lowest common hypernym is unique (known finding K14)
+    # symmetry of wup: both calls take the FIRST element of the same sorted list (fixed finding K14: before fbfe3f9 the
+    # list was in set-iteration order and the value depended on which lowest common hypernym came first)
     outs2 = outcomes(S.wup, [b, a, sr])
-    c1, c2 = z3.Consts('c1 c2', Node)
-    uniq = z3.ForAll([c1, c2], z3.Implies(z3.And(in_lcs(a.n, b.n, sr.z, c1), in_lcs(a.n, b.n, sr.z, c2)), c1 == c2))
-    symmetric(obs, name, outs, outs2, base, finding='K14', restricted=[uniq])
+    symmetric(obs, name, outs, outs2, base, finding='K14')
     # ---- res / jcn / lin ------------------------------------------------------------------------------------------
     freq = FreqObj()
     for fname in ('res', 'jcn', 'lin'):
@@ -510,6 +520,10 @@ def bounded(sess: Session):
     cases, fails = G.sweep('similarity', n)
     sess.add_bounded('wn.similarity.path/wup/lch + taxonomy', f'every labelled digraph with <= {n} nodes x all ordered '
                      f'pairs x simulate_root', cases, 'small-scope enumeration on the real functions', not fails)
+    c3, f3 = G.targeted('similarity')
+    sess.add_bounded('wn.similarity.* (several lowest common hypernyms, unsorted hypernym lists)', f'{c3} hand-picked '
+                     'graphs x all ordered pairs x simulate_root', c3, 'native execution', not f3)
+    fails = list(fails) + list(f3)
     # res with two lowest common hypernyms of different weight: the maximum information content (smallest weight)
     import math
     nodes, w = G.build(((2, 3), (2, 3), (), ()))
